@@ -3,6 +3,7 @@ Protocol handlers that do not depend on the translated device code (Spec + hand 
 Shared by `driver` (full) and `specdriver` (still builds when the translated code does not).
 -/
 import Py65.Driver.Spec
+import Py65.Driver.Num
 
 namespace Py65.Driver
 open Py65
@@ -26,7 +27,12 @@ def pyint (args : List String) : String :=
 def handleBase (toks : List String) : Option String :=
   match toks with
   | "spec" :: rest => some (runSpec rest)
+  | "pyint" :: [b, h] => some (runNum ["pyint", b, h])      -- int(str, base) model (C15/C19)
   | "pyint" :: rest => some (pyint rest)
+  | "num" :: rest => some (runNum ("num" :: rest))
+  | "rng" :: rest => some (runNum ("rng" :: rest))
+  | "lbl" :: rest => some (runNum ("lbl" :: rest))
+  | "fmt" :: rest => some (runNum ("fmt" :: rest))
   | "bg" :: [seed, w, addr] => some (toString (bg (parseInt! seed) (parseInt! w).toNat (parseInt! addr)))
   | _ => none
 
